@@ -1,5 +1,5 @@
 """C15 -- dot segments are removed exactly when an authority is present."""
-from common import Family, call, all_of, any_of, sym_eq, lengths
+from common import Family, call, outcome, all_of, any_of, sym_eq, lengths
 import oracles as O
 import urlkit as U
 
@@ -135,6 +135,28 @@ def h_child(ctx, skeleton, base_path, authority=True, route="div"):
         ctx.check("verbatim-without-authority", sym_eq(u.raw_path, merged))
 
 
+def h_joinpath_multi(ctx, base_path, sk1, sk2):
+    """joinpath(a, b): dots in any argument are removed under an authority; equals joinpath(a).joinpath(b)"""
+    P = ctx.P
+    a = U.text(ctx, sk1, prefix="a")
+    b = U.text(ctx, sk2, prefix="b")
+    ctx.assume(all_of([a[:1] != "/", b[:1] != "/", len(a) > 0, len(b) > 0]), "non-empty arguments that do not start with '/'")
+    base = P.URL("http://h" + base_path)
+    r = call(base.joinpath, a, b)
+    ctx.observe("joinpath", outcome(r))
+    ctx.check("no-exception", r[0] == "ok", r[1])
+    u = r[1]
+    ctx.observe("raw_path", u.raw_path)
+    bp = base_path if base_path else "/"
+    qa = P.quoters.PATH_QUOTER(a)
+    if qa[-1:] == "/":
+        qa = qa[:-1]        # documented: a trailing empty segment of a non-last argument is not kept
+    merged = (bp if bp[-1:] == "/" else bp + "/") + qa + "/" + P.quoters.PATH_QUOTER(b)
+    ctx.note("merged", merged)
+    ctx.check("no-dot-segment", U.no_dot_segment(u.raw_path))
+    ctx.check("rfc-5.2.4", sym_eq(u.raw_path, O.remove_dot_segments(merged)))
+
+
 def h_join(ctx, skeleton, base_path):
     """base.join(ref) with a path-only reference: merged path has its dot segments removed"""
     ref = U.text(ctx, skeleton)
@@ -190,4 +212,6 @@ def families(tier):
             fams.append(Family("joinpath/authority/base=%s/%s" % (bp, nm), h_child, dict(skeleton=sk, base_path=bp, route="joinpath")))
             fams.append(Family("join/base=%s/%s" % (bp, nm), h_join, dict(skeleton=sk, base_path=bp)))
         fams.append(Family("div/no-authority/base=%s/dots" % bp, h_child, dict(skeleton=[DOT, DOT, "/", DOT], base_path=bp, authority=False)))
+        if bp in ("", "/x", "/x/y") or not q:
+            fams.append(Family("joinpath-multi/base=%s" % bp, h_joinpath_multi, dict(base_path=bp, sk1=[DOT, DOT], sk2=[DOT, DOT])))
     return fams
